@@ -964,6 +964,8 @@ fn scan_trivia(source: &str) -> Vec<Scanned> {
     let mut out = Vec::new();
     let mut chars = source.char_indices().peekable();
     let mut in_string = false;
+    // Inside a `"""` string, which only another `"""` closes (a lone `"` or `""` is content).
+    let mut in_multiline = false;
     let mut escaped = false;
     let mut line_start = 0usize;
     let mut line_blank = true;
@@ -974,6 +976,14 @@ fn scan_trivia(source: &str) -> Vec<Scanned> {
             match c {
                 _ if escaped => escaped = false,
                 '\\' => escaped = true,
+                '"' if in_multiline => {
+                    if source[index..].starts_with("\"\"\"") {
+                        chars.next();
+                        chars.next();
+                        in_string = false;
+                        in_multiline = false;
+                    }
+                }
                 '"' => in_string = false,
                 _ => {}
             }
@@ -1014,6 +1024,11 @@ fn scan_trivia(source: &str) -> Vec<Scanned> {
                 line_blank = false;
             }
             '"' => {
+                if source[index..].starts_with("\"\"\"") {
+                    chars.next();
+                    chars.next();
+                    in_multiline = true;
+                }
                 in_string = true;
                 line_blank = false;
             }
